@@ -114,6 +114,10 @@ def rule_g1(ctx):
            'stored examples silently disappear and are recomputed)')
 
 
+def _const_key(e):
+    return e.value if isinstance(e, ast.Constant) and isinstance(e.value, str) else None
+
+
 def rule_g2(ctx):
     rep = ctx.report
     w = ctx.repo.cls('core._DiskCacheWrapper')
@@ -175,6 +179,33 @@ def rule_g2(ctx):
                               'something else than the cache directory is removed'))
     ok = bool(closes)
     rep.ob('G2', K.key(w, '__del__', 'closes-the-cache'), ok, fn, '')
+    # the wrapper travels to worker processes with the dataset (prefetch / parallel map with a process backend pickle the
+    # pipeline): the copy that is unpickled there is finalised when the task ends, so its finaliser must not remove the
+    # directory the parent is still using. The class has to say how it is pickled: a __getstate__ / __reduce__ that
+    # switches the removal off in the copy (or refuses pickling).
+    guards = {x.attr for mod, n, name in inside for t_, _b in flow.guards_of(n, fn) for x in ast.walk(t_) if A.is_self_attr(x)}
+    pick = [w.own(m_) for m_ in ('__getstate__', '__reduce__', '__reduce_ex__', '__setstate__') if w.own(m_) is not None]
+    safe = False
+    for pm in pick:
+        if not pm.is_function:
+            continue
+        if K.only_raises(pm.node):
+            safe = True          # not picklable at all
+        for x in A.walk_local(pm.node):
+            # state['clear'] = False / self.clear = False / dict(..., clear=False)
+            if isinstance(x, ast.Assign) and A.is_const(x.value, False) and any(
+                    (isinstance(t_, ast.Subscript) and _const_key(t_.slice) in guards) or (isinstance(t_, ast.Attribute) and t_.attr in guards)
+                    for t_ in x.targets):
+                safe = True
+            if isinstance(x, ast.keyword) and x.arg in guards and A.is_const(x.value, False):
+                safe = True
+            if isinstance(x, ast.Dict) and any(_const_key(k_) in guards and A.is_const(v_, False) for k_, v_ in zip(x.keys, x.values) if k_ is not None):
+                safe = True
+    rep.ob('G2', K.key(w, None, 'copy-in-another-process-does-not-remove-the-directory'), safe, w.node,
+           '' if safe else 'the wrapper defines a finaliser that removes the directory (under self.%s) but not how it is pickled: '
+           'with a process backend (`.prefetch(2, 4, backend=\'dill_mp\')`, parallel map) every worker unpickles a copy with the '
+           'same flag and removes the directory when its task ends - while the datasets in the parent still share the cache'
+           % '/'.join(sorted(guards) or ['clear']))
 
 
 def rule_p(ctx):
